@@ -4,7 +4,7 @@
 #define estimatedCacheLineSize 64
 typedef struct FreeObject { struct FreeObject *next; } FreeObject;
 /* header view of Block: only the members the sliced functions touch; sizeof == 128 == 2*estimatedCacheLineSize (checked natively in tv) */
-typedef struct Block { FreeObject *bumpPtr; FreeObject *freeList; uint16_t allocatedCount; uint16_t objectSize; char pad[128 - 20]; } Block;
+typedef struct Block { FreeObject *bumpPtr; FreeObject *freeList; uint16_t allocatedCount; uint16_t objectSize; bool isFull; FreeObject *publicFreeList; char pad[128 - 32]; } Block;
 _Static_assert(sizeof(Block) == 128, "Block header view");
 #include "consts.inc"
 #define VERIF_BSR(n) (31u - (unsigned)__builtin_clz(n))     /* assumed contract of the bsr instruction */
@@ -72,6 +72,97 @@ void h_find(void) {
     const char *expect = (const char *)b + slabSize - kk * os;
     OBLIGATION((const char *)r == expect, "C17.find: an interior pointer is mapped to the start of the object that contains it");
     OBLIGATION((const char *)r <= address && address < (const char *)r + os, "C17.find: the recovered object contains the address");
+    VACUITY_END();
+}
+#endif
+
+#if defined(BLK) && defined(FREE)
+/* ---- free path: every address that enters a free list (own or public) is the start of an object of this slab ---- */
+static bool is_start(const Block *b, const void *p) {
+    return (const char *)p >= (const char *)b + sizeof(Block) && (const char *)p + b->objectSize <= (const char *)b + slabSize && (size_t)(((const char *)b + slabSize) - (const char *)p) % b->objectSize == 0;
+}
+FreeObject *g_pub_pushed, *g_pub_prev; unsigned g_pub_n, g_notify, g_empty_calls, g_adjust, g_startup;
+bool o_pushed;   /* rely: other threads push starts of objects onto publicFreeList (or the owner privatises it), at any time */
+uint16_t g_ac0; FreeObject *g_fl0;
+/* the link word of a free object: recorded in ghost state (last store), and the store must be a writable 8 bytes inside the slab */
+FreeObject *g_link_of, *g_link_val; unsigned g_links;
+#define FO_SET_NEXT(p, v) do { g_link_of = (p); g_link_val = (v); g_links++; __CPROVER_assert(__CPROVER_w_ok((p), sizeof(FreeObject)), "C17.free: the link is written inside the slab"); } while (0)
+static void interfere(void) { if (nondet_bool()) { FreeObject *x; slab.hdr.publicFreeList = x; o_pushed = true; } }
+#define ATOMIC_LOAD_AT(site, f) ({ interfere(); (f); })
+#define ATOMIC_CAS_AT(site, f, e, d) ({ interfere(); bool r_ = ((f) == *(e)); if (r_) { g_pub_prev = (f); (f) = (d); g_pub_pushed = (d); g_pub_n++; \
+        __CPROVER_assert(g_link_of == (d) && g_link_val == g_pub_prev, "C17.free: the pushed object links to the previous list head (no publicly freed object is dropped)"); \
+        __CPROVER_assert(is_start(&slab.hdr, (d)), "C17.free: only starts of objects enter the public free list"); } else *(e) = (f); r_; })
+#define LOOP_fpo_1 __CPROVER_assigns(localPublicFreeList, slab.hdr.publicFreeList, o_pushed, g_pub_pushed, g_pub_prev, g_pub_n, g_link_of, g_link_val, g_links) __CPROVER_loop_invariant(g_pub_n == 0 && slab.hdr.objectSize == IN_os && slab.hdr.allocatedCount == g_ac0 && slab.hdr.freeList == g_fl0)
+static void STUB_markUsed(Block *b) {}
+static void STUB_processEmptyBlock(Block *b) { g_empty_calls++; }
+static void STUB_adjustPositionInBin(Block *b) { g_adjust++; }
+static void STUB_notifyOwner(Block *b) { g_notify++; }
+static void STUB_checkFreePrecond(Block *b, const void *o) {}
+static bool STUB_isStartupAllocObject(Block *b) { return false; }   /* slabs of the startup allocator: separate allocator, not covered */
+static void STUB_startupFree(Block *b, void *o) { g_startup++; }
+bool g_owner;
+static bool STUB_isOwnedByCurrentThread(Block *b) { return g_owner; }
+/* (Block*)alignDown(object, slabSize) computed by pointer arithmetic, so that CBMC keeps the result attached to the slab object; the address is the one alignDown gives */
+#define BLOCK_OF(o) ({ char *p_ = (char *)(o) - ((uintptr_t)(o) & (slabSize - 1)); __CPROVER_assert((uintptr_t)p_ == alignDown((uintptr_t)(o), slabSize), "translation: BLOCK_OF is alignDown(object, slabSize)"); (Block *)p_; })
+#include "free.inc"
+size_t IN_d;
+/* a pointer a client may pass to free: the start S of a live object, or - fitting bins only - an address inside it aligned to 2*fittingAlignment (what allocateAligned returns) */
+static char *client_pointer(Block *b, char **start) {
+    uint16_t os = IN_os = nondet_ushort(); size_t kk = IN_k = nondet_size_t(), d = IN_d = nondet_size_t();
+    __CPROVER_assume(legal_object_size(os));
+    size_t cap = (slabSize - sizeof(Block)) / os;
+    __CPROVER_assume(kk >= 1 && kk <= cap && d < os);
+    b->objectSize = os;
+    char *S = (char *)b + slabSize - kk * os, *obj = S + d;
+    __CPROVER_assume(d == 0 || (os > maxSegregatedObjectSize && ((uintptr_t)obj & (2 * fittingAlignment - 1)) == 0));
+    *start = S; return obj;
+}
+void h_find_to_free(void) {
+    Block *b = &slab.hdr; char *S; char *obj = client_pointer(b, &S);
+    FreeObject *r = Block_findObjectToFree(b, obj);
+    OBLIGATION((char *)r == S, "C17.free: the pointer given to free is mapped back to the start of the object that was allocated (aligned allocations return interior addresses)");
+    OBLIGATION(is_start(b, r), "C17.free: the object to free is properly placed");
+    VACUITY_END();
+}
+void h_free_own(void) {
+    Block *b = &slab.hdr; char *S; char *obj = client_pointer(b, &S);
+    size_t cap = (slabSize - sizeof(Block)) / b->objectSize;
+    uint16_t ac = nondet_ushort(); __CPROVER_assume(ac >= 1 && ac <= cap); b->allocatedCount = ac; b->isFull = false;
+    FreeObject *fl0; b->freeList = fl0; g_empty_calls = g_adjust = 0;
+    Block_freeOwnObject(b, obj);
+    OBLIGATION(b->allocatedCount == ac - 1, "C17.free: one object fewer is allocated");
+    if (ac == 1) OBLIGATION(g_empty_calls == 1 && b->freeList == fl0, "C17.free: the last object of a slab empties it (the slab is recycled, its free list is not extended)");
+    else {
+        OBLIGATION((char *)b->freeList == S && (char *)g_link_of == S && g_link_val == fl0, "C17.free: the freed object - its START, not the client's aligned address - becomes the head of the free list and links to the old head");
+        OBLIGATION(g_empty_calls == 0, "C17.free: a slab with live objects is not recycled");
+    }
+    VACUITY_END();
+}
+void h_free_public(void) {
+    Block *b = &slab.hdr; char *S; char *obj = client_pointer(b, &S);
+    FreeObject *p0; b->publicFreeList = p0; g_pub_n = 0; g_notify = 0; g_ac0 = b->allocatedCount; g_fl0 = b->freeList;
+    Block_freePublicObject(b, (FreeObject *)S);
+    OBLIGATION(g_pub_n == 1 && (char *)g_pub_pushed == S, "C17.free: exactly one successful push, of the object given");
+    OBLIGATION((g_notify == 1) == (g_pub_prev == NULL), "C17.free: the owner is notified exactly when the list was empty before this push");
+    OBLIGATION(b->allocatedCount == g_ac0 && b->freeList == g_fl0, "C17.free: a foreign thread leaves the owner's private fields alone");
+    VACUITY_END();
+}
+/* freeSmallObject, modularly: freeOwnObject(block, object) and freePublicObject(block, p) are replaced by recorders; what they do with their arguments is proved in free.own / free.public */
+unsigned g_own_calls, g_public_calls; Block *g_call_block; void *g_call_arg;
+static void REC_freeOwnObject(Block *b, void *o) { g_own_calls++; g_call_block = b; g_call_arg = o; }
+static void REC_freePublicObject(Block *b, FreeObject *o) { g_public_calls++; g_call_block = b; g_call_arg = o; }
+#define Block_freeOwnObject REC_freeOwnObject
+#define Block_freePublicObject REC_freePublicObject
+#include "free_small.inc"
+#undef Block_freeOwnObject
+#undef Block_freePublicObject
+void h_free_small(void) {
+    Block *b = &slab.hdr; char *S; char *obj = client_pointer(b, &S);
+    g_owner = nondet_bool(); g_own_calls = g_public_calls = 0;
+    freeSmallObject(obj);
+    OBLIGATION(g_call_block == b, "C17.free: the slab header is found by masking the address");
+    if (g_owner) OBLIGATION(g_own_calls == 1 && g_public_calls == 0 && (char *)g_call_arg == obj, "C17.free: own-thread free goes to freeOwnObject (which maps the pointer to the object start: free.own)");
+    else OBLIGATION(g_own_calls == 0 && g_public_calls == 1 && (char *)g_call_arg == S, "C17.free: foreign-thread free puts the START of the object - not the client's aligned address - on the public free list");
     VACUITY_END();
 }
 #endif
